@@ -162,6 +162,49 @@ def h17a_camera_stream(s0: int, s1: int, s2: int, s3: int, e0: bool, e1: bool, e
         world.close()
 
 
+def h17a_camera_two_subs(s0: int, s1: int, s2: int, s3: int, e0: bool, e1: bool, e2: bool, e3: bool, blob: bytes) -> bool:
+    """
+    pre: 0 <= s0 <= 1 and 0 <= s1 <= 1 and 0 <= s2 <= 1 and 0 <= s3 <= 1
+    pre: len(blob) == 8
+    post: _
+    """
+    # two state subscriptions on one client (e.g. two consumers): each gets every completed image once,
+    # and each image is the concatenation of that key's chunks -- the reassembly state of one
+    # subscription must not leak into the other
+    track.entered()
+    pbstub.reset_registry()
+    n = shard_int("NMSG", 3)
+    world = ClientWorld()
+    try:
+        calls_a, calls_b = [], []
+        world.cli.subscribe_states(calls_a.append)
+        world.cli.subscribe_states(calls_b.append)
+        plan = list(zip([s0, s1, s2, s3], [e0, e1, e2, e3]))[:n]
+        buf = {CAM_KEYS[0]: [], CAM_KEYS[1]: []}
+        expected = []
+        for i, (sel, end) in enumerate(plan):
+            key = CAM_KEYS[concretize(sel, 1)]
+            d = blob[2 * i: 2 * i + 2]
+            world.deliver(S[pb.CameraImageResponse](key=key, data=d, done=end))
+            buf[key].append(d)
+            if end:
+                expected.append((key, b"".join(buf[key])))
+                buf[key] = []
+        if track.reached():
+            return False
+        for nm, calls in (("first", calls_a), ("second", calls_b)):
+            if len(calls) != len(expected):
+                return track.fail(f"{nm} subscription: {len(calls)} callbacks for a stream that completes {len(expected)} images")
+            for got, (key, img) in zip(calls, expected):
+                if type(got) is not CameraState or got.key != key:
+                    return track.fail(f"{nm} subscription: completed images not reported in completion order under their own key")
+                if got.data != img:
+                    return track.fail(f"{nm} subscription: completed image differs from the concatenation of that key's chunks since its previous completion")
+        return True
+    finally:
+        world.close()
+
+
 # ----------------------------------------------------------------------------------------------
 # H17b: every state type -> exactly one callback of the mapped model class with the message's values
 # ----------------------------------------------------------------------------------------------
@@ -625,6 +668,8 @@ def shards(tier: str) -> list:
     for n in ([3] if tier == "quick" else [3, 4]):
         out.append({"fn": "h17a_camera_stream", "env": {"NMSG": n}, "cond_timeout": 400,
                     "desc": f"subscribe_states + process_packet: {n} camera chunks over 2 keys, interleaved switch state"})
+        out.append({"fn": "h17a_camera_two_subs", "env": {"NMSG": n}, "cond_timeout": 400,
+                    "desc": f"two state subscriptions on one client: {n} camera chunks over 2 keys, each subscription reassembles on its own"})
     groups = [list(range(i, min(i + 3, NSTATE))) for i in range(0, NSTATE, 3)]
     for g in groups:
         out.append({"fn": "h17b_state", "env": {"TYPES": ",".join(map(str, g))}, "cond_timeout": 400,
